@@ -126,8 +126,17 @@ func init() {
 				if got.String() != want {
 					rep.violation(json.RawMessage(raw), want, got.String(), fmt.Sprintf("%q.Join(%q)", a, segs))
 				}
-				if !sameStrings(got.Segments(), append(a.Segments(), segs...)) {
-					rep.violation(json.RawMessage(raw), append(a.Segments(), segs...), got.Segments(), "Segments(Join(c, ss)) != Segments(c) ++ ss")
+				var nonEmpty []string
+				for _, sg := range segs {
+					if sg != "" {
+						nonEmpty = append(nonEmpty, sg)
+					}
+				}
+				if !sameStrings(got.Segments(), append(a.Segments(), nonEmpty...)) {
+					rep.violation(json.RawMessage(raw), append(a.Segments(), nonEmpty...), got.Segments(), "Segments(Join(c, ss)) != Segments(c) ++ ss")
+				}
+				if !command.IsValid(got.String()) {
+					rep.violation(json.RawMessage(raw), "a valid command", got.String(), "Join handed out a command that Parse refuses")
 				}
 				if a == command.Top() {
 					if n := command.New(segs...); n.String() != want {
@@ -274,12 +283,16 @@ func init() {
 				}
 				var ss []string
 				segs := [][]string{}
-				for k := rng.Intn(3); k >= 0; k-- {
+				for k := rng.Intn(4); k >= 0; k-- {
 					s := seg()
+					if rng.Intn(5) == 0 {
+						s = "" // a level the caller left blank
+					}
 					ss = append(ss, s)
 					segs = append(segs, charsOf(s))
 				}
 				emit(map[string]any{"ev": "Join", "c": charsOf(a), "segs": segs, "res": charsOf(ca.Join(ss...).String())})
+				emit(map[string]any{"ev": "New", "segs": segs, "res": charsOf(command.New(ss...).String())})
 			}
 		}
 		return nil
